@@ -27,7 +27,7 @@ NA = {
 CHECKS = {
  "C18": dict(
    level="exploration",
-   text="Seeded search over schedules and atomic-operation outcomes: 2-3 simulated caller threads (real OS threads under a baton scheduler driven by one choice stream) read, clone and drop one shared LazyValue / OwnedLazyValue, with a context switch possible before every load / compare-exchange of the cache field and every compare_exchange_weak allowed to fail spuriously; oracles: every returned value equals the model, no crash, no call exceeds its progress bound, simulated heap shows every decoding freed exactly once with its own layout and nothing leaked. A second engine (Miri, many seeds) runs the same scenario shapes under the Rust abstract machine to catch what a serialising scheduler cannot (missing acquire/release, invalid references). Sampling, not enumeration: a clean batch is evidence, not proof.",
+   text="Seeded search over schedules and atomic-operation outcomes: 2-3 simulated caller threads (real OS threads under a baton scheduler driven by one choice stream) read, clone and drop one shared LazyValue / OwnedLazyValue, with a context switch possible before every load / compare-exchange of the cache field and directly behind every compare-exchange, references handed out by the library held across switches, and every compare_exchange_weak allowed to fail spuriously; oracles: every returned value equals the model, no crash, no call exceeds its progress bound, simulated heap shows every decoding freed exactly once with its own layout and nothing leaked. A second engine (Miri, many seeds) runs the same scenario shapes under the Rust abstract machine to catch what a serialising scheduler cannot (missing acquire/release, invalid references). Sampling, not enumeration: a clean batch is evidence, not proof.",
    design_ref="DESIGN.md section 3 (C18), sections 2.2-2.4, 2.9",
    note="Trusted: std Arc/atomics, the System allocator under the ledger, faststr, the reference JSON model (self-tested at start-up). The baton scheduler serialises threads, so weak-memory effects are only seen by the Miri engine, which cannot run more than a few hundred seeds. Documents are small and well-formed.",
    technique="deterministic simulation: seeded schedule + weak-CAS fault injection over real threads (baton scheduler), simulated heap; Miri many-seeds as second deterministic engine",
@@ -37,37 +37,37 @@ CHECKS = {
 
 CHECKS["C05"] = dict(
    level="fault_enumeration",
-   text="Typed value trees drawn model-first (every serde data-model entry point, strings placed 0..40 bytes before an unmapped page) are serialized compact and pretty through every supported writer stack (to_string/to_vec, &mut Vec, Box, BytesMut writers, BufferedWriter, io::BufWriter with several capacities, a user WriteExt whose reserved window ends at an unmapped page, and nestings). Fault-free output must equal the reference rendering byte for byte (float tokens by value), be valid UTF-8 and well-formed JSON, and pretty must equal compact re-indented. Under an injected writer fault (permanent error or Ok(0) after n bytes, error at call c, reserve_with/flush_len error; transient short writes and EINTR on top) the call must return Err and the bytes the sink accepted must be a prefix of the correct output. Quick: one drawn fault point per run; thorough: every byte offset and call index enumerated per value for every fault kind.",
+   text="Typed value trees drawn model-first (every serde data-model entry point, strings placed 0..40 bytes before an unmapped page) are serialized compact and pretty through every supported writer stack (to_string/to_vec, &mut Vec, Box, BytesMut writers, BufferedWriter, io::BufWriter with several capacities, a user WriteExt whose reserved window ends at an unmapped page, and nestings). Fault-free output must equal the reference rendering byte for byte (float tokens by value), be valid UTF-8 and well-formed JSON, and pretty must equal compact re-indented. Under an injected writer fault (permanent error or Ok(0) after n bytes, error at call c, reserve_with/flush_len error; transient short writes and EINTR on top) the call must return Err and the bytes the sink accepted must be a prefix of the correct output. Quick: one drawn fault point per run (plus a small Miri sample); thorough: every byte offset and call index enumerated per value for every fault kind, and a Miri sample of the same runs.",
    design_ref="DESIGN.md section 3 (C05), section 2.5",
    note="Trusted: the reference escaper/re-indenter (self-tested), std io::BufWriter, bytes, itoa, ryu (float spelling is compared by value only). Exhaustive over fault positions per generated value, sampled over values. Hash-ordered (mutated) objects are not embedded.",
    technique="deterministic simulation: fault-injecting writer seams (short write, EINTR, permanent error, Ok(0), reserve/flush_len failure) with guard pages; seeded values, enumerated fault positions",
-   engine="dsim io",
+   engine="dsim io + miri sample",
 )
 CHECKS["C16"] = dict(
    level="exploration",
-   text="Seeded search over operation histories and schedules: 1-3 simulated caller threads (real OS threads with their real thread-local node buffer, serialised by a baton scheduler driven by one choice stream) parse documents by seven routes, run several values through one deserializer or stream, clone roots and subtrees, take children out, insert values into other documents, mutate, send values to other threads and drop everything in drawn orders, with a context switch possible before every arena reference-count operation. Oracles: every read of every survivor equals its model (freed memory is poisoned and quarantined, so a premature release cannot pass), the simulated heap reports any double/invalid/wrong-layout free, write-after-free, overflow or leak, and the number of live arenas (hook events) never exceeds the number of documents/deserializers that can still be referenced and returns to zero at the end.",
+   text="Seeded search over operation histories and schedules: 1-3 simulated caller threads (real OS threads with their real thread-local node buffer, serialised by a baton scheduler driven by one choice stream) parse documents by ten routes (incl. malformed documents through deserializers that already produced values, repeated texts, hand-off to another thread followed by a re-parse), run several values through one deserializer or stream, clone roots and subtrees, take children out, insert values into other documents, mutate, send values to other threads and drop everything in drawn orders (every survivor re-read after each final drop; thorough tier: for single-threaded runs ending with 2-5 sharers EVERY drop order is enumerated), with a context switch possible before every arena reference-count operation. One run in three uses the simulated heap's reuse mode (freed blocks handed out again by size, randomised) so that address-reuse defects can show. Oracles: every read of every survivor equals its model (freed memory is poisoned and quarantined, so a premature release cannot pass), the simulated heap reports any double/invalid/wrong-layout free, write-after-free, overflow or leak, and the number of live arenas (hook events) never exceeds the number of documents/deserializers that can still be referenced and returns to zero at the end. A second engine (Miri, many seeds, free-running threads) runs the same scenarios under the Rust abstract machine with its data-race detector.",
    design_ref="DESIGN.md section 3 (C16), sections 2.2-2.4",
-   note="Trusted: std Arc, bumpalo, the System allocator under the ledger. Native only (Miri cannot execute the arena DOM), so memory errors are seen through the simulated heap rather than an abstract machine; weak-memory effects inside Arc are out of reach of a serialising scheduler. Small documents, <= 3 threads, <= 40 operations per thread.",
-   technique="deterministic simulation: seeded histories + schedules over real threads (baton scheduler), simulated heap with poison/quarantine/leak ledger, arena conservation invariant from hook events",
-   engine="dsim arena",
+   note="Trusted: std Arc, bumpalo, the System allocator under the ledger. The native engine sees memory errors through the simulated heap and serialises threads, so data races are the business of the Miri engine (which needs the second guarded hook, see hooks), limited to a few hundred seeds. Small documents, <= 3 threads, <= 40 operations per thread.",
+   technique="deterministic simulation: seeded histories + schedules over real threads (baton scheduler), simulated heap with poison/quarantine/reuse/leak ledger, arena conservation invariant from hook events, drop orders enumerated in the thorough tier; Miri many-seeds as second deterministic engine",
+   engine="dsim arena + miri",
 )
 
 CHECKS["C13"] = dict(
    level="exploration",
    text="Seeded search over operation histories: a well-formed document is drawn model-first and rendered with recorded value spans; lazy handles are obtained by every public route (get on every carrier, get_unchecked, get_many, iterators, serde borrowed/owned, From<LazyValue>, to_lazyvalue, literals) and a drawn history of reads, child handles, clones, borrowed-to-owned conversions, Value::try_from, take, as_array_mut/as_object_mut + Vec operations, get_mut/pointer_mut + assign/take runs over a pool of handles with the model updated in lock-step. After every step every live handle is re-serialized by a drawn method and compared with its model: raw text verbatim for untouched parts, model equality by reference re-parse; accessors (type, bool, number, string, raw number, children by get/pointer/iteration) are compared with the model of the raw text. The simulated heap checks frees and leaks of the take-out-of-the-box path.",
    design_ref="DESIGN.md section 3 (C13)",
-   note="Trusted: the reference JSON model and span scanner (self-tested). Single simulated caller (threads are C18's business). No duplicate keys; number literals with unambiguous classification. A clone of a value whose cache may be loaded may serialize in its one-level parsed form.",
+   note="Trusted: the reference JSON model and span scanner (self-tested). Single simulated caller (threads are C18's business). One run in four repeats member names (a lookup by key then means the first member, as in the DOM); number literals from the full RFC 8259 grammar. A clone of a value whose cache may be loaded may serialize in its one-level parsed form.",
    technique="deterministic simulation: seeded operation histories against a lock-step reference model, simulated heap (ledger/poison/leak check); no scheduler or I/O faults are involved in this property",
-   engine="dsim lazy",
+   engine="dsim lazy + miri sample",
 )
 
 CHECKS["C15"] = dict(
    level="exploration",
    text="Seeded search over operation histories: a pool of up to six live (Value, model) pairs seeded from parsed roots (in-place and copying parse paths), macro- and conversion-built values and empty containers; a drawn history of 2-48 steps over the whole public mutation API of Array, Object (incl. the Entry API) and Value (IndexMut with every index type, get_mut, pointer/pointer_mut incl. empty and absent paths, take, clone of roots and subtrees, cross-assignment between pool members, into_array/into_object, equality), including operations the reference rejects. After every step the returned result is compared with the model's and ALL pool members are dumped through the public read API and compared with their models, which is what shows that mutating one value never changes another (the document it was cloned or taken from, earlier clones). Rejected operations must fail (None or documented panic) and change nothing. The simulated heap checks frees and leaks of the copy-on-write promotion.",
    design_ref="DESIGN.md section 3 (C15)",
-   note="Trusted: the reference model (vectors and ordered key/value lists compared as unordered maps). Single simulated caller. No duplicate keys. Capacity and member order of promoted objects are not compared. array::IntoIter::{as_slice,as_mut_slice} are not exercised (no stated reference).",
+   note="Trusted: the reference model (vectors and ordered key/value lists compared as unordered maps). Single simulated caller. No duplicate keys. Capacity and member order of promoted objects are not compared. Every container operation is entered both through as_array_mut/as_object_mut (promotes first) and through a typed Array/Object handle taken out of its place; array::IntoIter is held to vec::IntoIter incl. as_slice/as_mut_slice (finding F14). Miri sample in the thorough tier only.",
    technique="deterministic simulation: seeded operation histories against a lock-step array/map reference model with a full dump of every live value after every step; simulated heap (ledger/poison/leak check)",
-   engine="dsim dom",
+   engine="dsim dom (+ miri sample, thorough)",
 )
 
 PENDING = {
